@@ -14,6 +14,8 @@ Decided (structural necessary conditions):
              and advances the previous objective; the returned object is that model
   TR-cover   the returned trace prefix covers the last index written (start + one per epoch)
   SMP-cnt    (E4a) every sampler returns subscripts, values and weights with equal symbolic row counts
+  SMP-lin    linear indices computed by hand in a sampler (subs @ cumprod(..shape..)) use tt_sub2ind's numbering: strides
+             cumprod((1,) + shape[:-1]); no such site on the reviewed tree (fixtures keep the rule alive)
   SMP-val    values reported for drawn zeros are zeros, values of drawn nonzeros are gathered with
              the same index as their subscripts
 Not decided: weight totals, "drawn zeros are true zeros" for the semi-stratified sampler (by design
@@ -652,6 +654,31 @@ def smp_cnt(prog: Program, res: Result) -> None:
                     f"the zero block of the values is {ast.unparse(d) if d is not None else 'undefined'}")
 
 
+def smp_lin(prog: Program, res: Result) -> None:
+    """Hand-written linear indices in the samplers (subs @ strides instead of tt_sub2ind): the rejection test of the zero sampler compares
+    them with tt_sub2ind indices of the nonzeros, so the strides must be the first-subscript-fastest ones, cumprod((1,) + shape[:-1]).
+    The reviewed tree has no such site (it calls tt_sub2ind); fixtures keep the rule from passing vacuously."""
+    from .C20 import _stride_idiom
+    bad_fx = _stride_idiom(ast.parse("def f(data, subs):\n    strides = np.cumprod((1, *data.shape[1:]))\n    return subs @ strides\n"))
+    ok_fx = _stride_idiom(ast.parse("def f(data, subs):\n    strides = np.cumprod((1, *data.shape[:-1]))\n    return subs @ strides\n"))
+    if not (bad_fx and bad_fx[0] is False and ok_fx and ok_fx[0] is True):
+        raise AnalysisError("SMP-lin stride fixtures not recognised")
+    for q, fi in sorted(prog.functions.items()):
+        if fi.module != "pyttb.gcp.samplers":
+            continue
+        v = _stride_idiom(fi.node)
+        if v is None:
+            continue
+        desc = "linear indices computed by hand use the first-subscript-fastest strides of the shape (the numbering of tt_sub2ind)"
+        if v[0]:
+            res.ok("SMP-lin", fi.short, desc, prog.loc(fi, v[2]))
+        else:
+            res.bad("SMP-lin", fi.short, desc, prog.loc(fi, v[2]),
+                    v[1].replace("the positions leave the diagonal for every non-cubical shape",
+                                 "the indices no longer match tt_sub2ind's for any non-cubical shape: drawn 'zeros' are not tested against the "
+                                 "stored nonzeros they coincide with"))
+
+
 def check(prog: Program, res: Result, tier: str) -> None:
     res.explanation = __doc__.split("\n\n", 1)[1]
     res.assumptions = [
@@ -666,3 +693,4 @@ def check(prog: Program, res: Result, tier: str) -> None:
     bm_sync(prog, res)
     tr_cover(prog, res)
     smp_cnt(prog, res)
+    smp_lin(prog, res)
